@@ -6,7 +6,7 @@ cd /verif || exit 2
 ids="$@"; [ -z "$ids" ] && ids=$(ls seeded)
 ok=0; miss=0; stale=0
 for id in $ids; do
-  prop=$(python3 -c "import json;print(json.load(open('seeded/$id/meta.json'))['breaks_property'])")
+  prop=$(python3 -c "import json;m=json.load(open('seeded/$id/meta.json'));print(m.get('regress_with_check') or m['breaks_property'])")
   out=$(./trymut.sh /verif/seeded/$id/patch.diff $prop 2>&1); rc=$?
   if echo "$out" | grep -q "patch does not apply"; then echo "$id stale (patch no longer applies)"; stale=$((stale+1)); continue; fi
   if [ $rc -eq 1 ]; then echo "$id detected by $prop: $(echo "$out" | grep -E '^  [a-z-]+/' | head -1 | cut -c1-160)"; ok=$((ok+1));
